@@ -71,8 +71,9 @@ theorem own_join_one {s s1 : Srv} {b : Bot} (hw : SrvWF s) (hc : Coupled s b) {u
   rw [← hb1]
   -- topic and NAMES
   have hat : AtSrv { s with chans := aset s.chans (lower c) sc1 } b1 := by
-    refine ⟨hw1, ?_⟩
-    rw [hb1]; exact hc.nick
+    refine ⟨hw1, ?_, ?_⟩
+    · rw [hb1]; exact hc.nick
+    · rw [hb1]; exact hc.isup
   have hch1 : aget b1.channels (lower c) = some { Chan.empty with users := [s.botKey] } := by
     rw [hb1]; exact aget_aset_self _ _ _
   obtain ⟨hf, ⟨ch', hch', hm'⟩, hn'⟩ := burst_effect hat (aget_aset_self _ _ _) hbot1 hch1
@@ -94,7 +95,7 @@ theorem own_join_one {s s1 : Srv} {b : Bot} (hw : SrvWF s) (hc : Coupled s b) {u
       · simp only [hk, ↓reduceIte]; exact hcorrect
     exact hf.keeps hu h1
   -- conclude
-  refine coupled_update hc (lower c) rfl rfl rfl ?_ (fun k hk => aget_aset_ne _ _ (Ne.symm hk)) ?_ ?_ ?_ ?_ ?_ ?_ ?_ ?_
+  refine coupled_update hc (lower c) rfl rfl rfl ?_ (fun k hk => aget_aset_ne _ _ (Ne.symm hk)) ?_ ?_ ?_ ?_ ?_ ?_ ?_ ?_ ?_
   · intro k hk
     exact ⟨mSynced_sdel s _ _ _ hk, mSynced_sdel s _ _ _ hk⟩
   · intro k hk
@@ -112,6 +113,7 @@ theorem own_join_one {s s1 : Srv} {b : Bot} (hw : SrvWF s) (hc : Coupled s b) {u
   · rw [hf.nick, hb1]; rfl
   · rw [hf.cfgNick, hb1]; rfl
   · rw [hf.cfgIdent, hb1]; rfl
+  · rw [hf.isup, hb1]; rfl
   · intro k u hu ht
     have ht' : k ∈ (if s.cfg.uhnames then addAll (sadd s.told s.botKey) sc1.keys else sadd s.told s.botKey) := ht
     have hbase : k ∈ sadd s.told s.botKey → aget (b1.recvAll (Srv.joinBurst { s with chans := aset s.chans (lower c) sc1 } sc1)).n2h k = some u.mask := by
@@ -209,7 +211,7 @@ theorem coupled_replyMode {s : Srv} {b : Bot} (hw : SrvWF s) (hc : Coupled s b) 
   · rename_i sc hch
     rw [Srv.chan_eq] at hch
     have hcw := hw.chans _ _ hch
-    have hat : AtSrv s b := ⟨hw, hc.nick⟩
+    have hat : AtSrv s b := ⟨hw, hc.nick, hc.isup⟩
     have hkey := hcw.key
     by_cases hb : sc.has s.botKey = true
     · have hbi : s.botIn sc = true := hb
@@ -218,7 +220,7 @@ theorem coupled_replyMode {s : Srv} {b : Bot} (hw : SrvWF s) (hc : Coupled s b) 
       rw [mode_line hat hch hbc]
       obtain ⟨ch4, hb4, hv4⟩ := created_line (s := s)
         (b := { b with channels := aset b.channels (lower c) { ch with modes := sc.modes.foldl (fun acc e => aset acc e.1 e.2) ch.modes } })
-        ⟨hw, hc.nick⟩ sc (by rw [hkey]; exact aget_aset_self _ _ _)
+        ⟨hw, hc.nick, hc.isup⟩ sc (by rw [hkey]; exact aget_aset_self _ _ _)
       rw [hb4]
       simp only [hkey, aset_aset]
       refine coupled_of_frame hc (frame_setChan s (lower c) b ch4) rfl rfl rfl rfl ?_ ?_ (fun _ _ _ h => Or.inl h)
@@ -275,7 +277,7 @@ theorem coupled_replyBans {s : Srv} {b : Bot} (hw : SrvWF s) (hc : Coupled s b) 
   · rename_i sc hch
     rw [Srv.chan_eq] at hch
     have hcw := hw.chans _ _ hch
-    have hat : AtSrv s b := ⟨hw, hc.nick⟩
+    have hat : AtSrv s b := ⟨hw, hc.nick, hc.isup⟩
     have hkey := hcw.key
     unfold Srv.banList
     simp only [recvAll_append]
@@ -286,7 +288,7 @@ theorem coupled_replyBans {s : Srv} {b : Bot} (hw : SrvWF s) (hc : Coupled s b) 
       obtain ⟨b1, hb1⟩ : ∃ b1, b1 = ({ b with channels := (aset b.channels (lower sc.name)
           { ch with bans := sc.bans.foldl (fun acc m => sadd acc (lower m)) ch.bans }) } : Bot) := ⟨_, rfl⟩
       rw [← hb1]
-      have h1 : AtSrv s b1 := by rw [hb1]; exact ⟨hw, hc.nick⟩
+      have h1 : AtSrv s b1 := by rw [hb1]; exact ⟨hw, hc.nick, hc.isup⟩
       simp only [recvAll_cons, recvAll_nil, recv_emit]
       rw [noop_line h1 "368".toList [sc.name, "End of channel ban list".toList] cmdOf_368]
       subst hb1
@@ -320,7 +322,7 @@ theorem coupled_replyBans {s : Srv} {b : Bot} (hw : SrvWF s) (hc : Coupled s b) 
 
 /-- dropping or adding pending queries does not touch the coupling -/
 theorem coupled_pending {s : Srv} {b : Bot} (hc : Coupled s b) (p : List Req) : Coupled { s with pending := p } b :=
-  ⟨hc.nick, hc.chans, hc.hosts, hc.pfx, hc.cfgNick, hc.cfgIdent⟩
+  ⟨hc.nick, hc.chans, hc.hosts, hc.pfx, hc.cfgNick, hc.cfgIdent, hc.isup⟩
 
 theorem coupled_serve {s : Srv} {b : Bot} (hw : SrvWF s) (hc : Coupled s b) :
     Coupled (s.step .serve).1 (b.recvAll (s.step .serve).2) := by
@@ -348,6 +350,7 @@ theorem coupled_step {s : Srv} {b : Bot} (hw : SrvWF s) (hc : Coupled s b) (a : 
   | topic src c t => exact coupled_topic hw hc src c t
   | chghost n i ho => exact coupled_chghost hw hc n i ho
   | say n t x => exact coupled_say hw hc n t x
+  | isupport => exact coupled_isupport hw hc
   | names c => exact coupled_names hw hc c
   | who c => exact coupled_replyWho hw hc c
   | modeis c => exact coupled_replyMode hw hc c
@@ -356,7 +359,7 @@ theorem coupled_step {s : Srv} {b : Bot} (hw : SrvWF s) (hc : Coupled s b) (a : 
   | reconnect => exact coupled_reconnect hw hc
 
 theorem coupled_init (cfg : Cfg) (hv : cfg.valid = true) : Coupled (Srv.init cfg) (Bot.init cfg.botNick cfg.botIdent) := by
-  refine ⟨rfl, ?_, ?_, ?_, rfl, rfl⟩
+  refine ⟨rfl, ?_, ?_, ?_, rfl, rfl, ⟨Or.inl rfl, Or.inl rfl⟩⟩
   · intro k; simp [Srv.init, Bot.init, ChanRel]
   · intro k u _ hv'; simp [Srv.init] at hv'
   · intro k sc hsc; simp [Srv.init] at hsc
